@@ -28,6 +28,7 @@ type shape struct {
 	Bytes  []byte `json:"-"`
 	Cuts   []int  `json:"cuts"`
 	Counts []int  `json:"counts"`
+	N      int    `json:"n"` // the number of cases the specification says the shape yields
 	Marks  []mark `json:"-"`
 }
 
@@ -239,6 +240,9 @@ func (cat *catalogue) parseShape(js string) (*shape, error) {
 		sh.Marks = append(sh.Marks, mk)
 	}
 	sort.Ints(sh.Cuts)
+	if got := cat.numCases(&sh); got != sh.N {
+		return nil, fmt.Errorf("%s/%d: the specification announces %d malformed encodings, the harness derives %d", sh.Type, sh.Idx, sh.N, got)
+	}
 	return &sh, nil
 }
 
